@@ -146,7 +146,7 @@ def fix_atomic_specifiers(
         decl.quals = list(typ.quals)
     elif "_Atomic" in typ.quals and "_Atomic" not in decl.quals:
         decl.quals.append("_Atomic")
-    if typ.declname is None:
+    if typ.declname is None and decl.name:
         typ.declname = decl.name
 
     return decl
